@@ -385,13 +385,54 @@ theorem spectral_order (rw : Bool) {out : SpectralOut α}
   · simpa using spectralPost_order_laplacian F _ _ nm _ _
   · simpa using spectralPost_order_rw F _ _ nm _ _
 
-/-- the embedding is the matrix of eigenvectors, row-normalised when `normalized` (then split by `_split_vars`) -/
+/-- (unfolding of the model, used below) the embedding is `normalize2` of the matrix of eigenvectors when `normalized` -/
 theorem spectral_embedding (rw : Bool) (op : LapOp α) (n : Nat) (values : Vec α) (vectors : Mat α) :
     (spectralPost F n op rw nm values vectors).2.2
       = if nm then normalize2 F n (spectralPost F n op rw nm values vectors).1.length
                     (spectralPost F n op rw nm values vectors).2.1
         else (spectralPost F n op rw nm values vectors).2.1 := by
   cases rw <;> cases nm <;> simp [spectralPost]
+
+/-- **C09 / Spectral, the embedding**: entry by entry, the (full, rows then columns) embedding is the matrix
+    `eigenvectors_` with every row divided by its Euclidean norm (`Spec.normalizedEntry`: null rows stay null) when
+    `normalized`, and `eigenvectors_` itself otherwise. -/
+theorem spectral_embedding_spec (rw : Bool) (op : LapOp α) (n : Nat) (values : Vec α) (vectors : Mat α)
+    (i c : Nat) (hi : i < n) (hc : c < (spectralPost F n op rw nm values vectors).1.length) :
+    mget (spectralPost F n op rw nm values vectors).2.2 i c
+      = if nm then Spec.normalizedEntry F (spectralPost F n op rw nm values vectors).1.length
+                    (spectralPost F n op rw nm values vectors).2.1 i c
+        else mget (spectralPost F n op rw nm values vectors).2.1 i c := by
+  rw [spectral_embedding F nm rw op n values vectors]
+  cases nm
+  · simp
+  · simp only [if_true]
+    exact normalize2_eq_normalizedEntry F n _ _ i c hi hc
+
+/-- **C09 / Spectral, the vectors keep their normalisation**: when no regularised degree is zero, the
+    degree-weighted products of the returned `eigenvectors_` (random-walk decomposition, `v = D^{-1/2}u`) are the
+    Euclidean products of the solver's vectors — an orthonormal solver output gives `Σ_i d_i v_ic v_ic' = δ_cc'`. -/
+theorem spectral_rw_dorthonormal (n : Nat) (a : Mat α) (reg : α)
+    (hsq : ∀ i, i < n → F.sqrt ((∑ j ∈ range n, mget a i j) + reg) * F.sqrt ((∑ j ∈ range n, mget a i j) + reg)
+                        = (∑ j ∈ range n, mget a i j) + reg)
+    (hpos : ∀ i, i < n → F.sqrt ((∑ j ∈ range n, mget a i j) + reg) ≠ 0)
+    (values : Vec α) (vectors : Mat α) (c c' : Nat)
+    (hc : c < (spectralPost F n (lapInit F n a reg true) true nm values vectors).1.length)
+    (hc' : c' < (spectralPost F n (lapInit F n a reg true) true nm values vectors).1.length) :
+    ∑ i ∈ range n, ((∑ j ∈ range n, mget a i j) + reg)
+        * mget (spectralPost F n (lapInit F n a reg true) true nm values vectors).2.1 i c
+        * mget (spectralPost F n (lapInit F n a reg true) true nm values vectors).2.1 i c'
+      = ∑ i ∈ range n, mget vectors i (((argsort values).drop 1).getD c 0)
+          * mget vectors i (((argsort values).drop 1).getD c' 0) := by
+  have hlen : c < ((argsort values).drop 1).length := by
+    have := hc; simp only [spectralPost, if_true, List.length_map] at this; exact this
+  have hlen' : c' < ((argsort values).drop 1).length := by
+    have := hc'; simp only [spectralPost, if_true, List.length_map] at this; exact this
+  refine Finset.sum_congr rfl fun i hi => ?_
+  have hi' := Finset.mem_range.mp hi
+  simp only [spectralPost, if_true]
+  rw [mget_mkMat_lt _ hi' hlen, mget_mkMat_lt _ hi' hlen', mget_selectCols n vectors _ i c hi' hlen,
+    mget_selectCols n vectors _ i c' hi' hlen', lapInit_normDiag F n a reg i hi']
+  exact dinner_of_sqrt (hsq i hi') (hpos i hi') _ _
 
 /-- **C09 / Spectral, unit norm.**  With `normalized=True` every row of the embedding whose eigenvector row is
     non-null has Euclidean norm 1, and a null row (isolated node without regularisation) stays null. -/
@@ -483,6 +524,24 @@ example :
         = (∑ j ∈ range 3, mget k3 i j) + 0) := by
   decide +kernel
 
+/-- two disjoint edges of weight 2: disconnected, so `regularization = -2` is applied as `2` (regularised degrees 4) -/
+def twoEdges : Mat ℚ := [[0, 2, 0, 0], [2, 0, 0, 0], [0, 0, 0, 2], [0, 0, 2, 0]]
+/-- eigenpairs `(0, D^{1/2}1)`, `(1/2, (1,1,−1,−1))` of the normalised regularised Laplacian -/
+def solTwoEdges : LapOp ℚ → Mat ℚ → Nat → Vec ℚ × Mat ℚ := fun _ _ _ => ([0, 1/2], [[1, 1], [1, 1], [1, -1], [1, -1]])
+
+/-- non-vacuity on the regularised branch (disconnected graph, negative parameter): the fit succeeds and is regularised,
+    the contract and the square-root hypothesis hold, the returned pair is `(1 − 1/2, D^{-1/2}(1,1,−1,−1))`. -/
+example :
+    (spectralFit Fq 4 4 twoEdges 4 false 1 true (-2) false solTwoEdges).toOption.map
+        (fun o => (o.regularized, o.eigenvalues, o.eigenvectors))
+      = some (true, [1/2], [[1/2], [1/2], [-1/2], [-1/2]]) ∧
+    spReg 4 4 twoEdges false (-2 : ℚ) = 2 ∧
+    IsEigenpairs (spOp Fq 4 4 twoEdges false (-2) true) (spAdj 4 4 twoEdges false)
+      (spSol Fq 4 4 twoEdges false 1 (-2) solTwoEdges true).1 (spSol Fq 4 4 twoEdges false 1 (-2) solTwoEdges true).2 ∧
+    (∀ i, i < 4 → Fq.sqrt ((∑ j ∈ range 4, mget twoEdges i j) + 2) * Fq.sqrt ((∑ j ∈ range 4, mget twoEdges i j) + 2)
+        = (∑ j ∈ range 4, mget twoEdges i j) + 2) := by
+  decide +kernel
+
 /-! ### GSVD / SVD -/
 
 section gsvd
@@ -525,10 +584,10 @@ theorem gsvd_operator_denote (hc : 0 < nCol) (i j : Nat) (hi : i < nRow) (hj : j
       = Spec.gsvdEntry F nRow nCol a (p.regularization.getD 0) p.factorRow p.factorCol i j :=
   gsvdOperator_entry F nRow nCol a p hc i j hi hj
 
-/-- **`gsvd_embedding`**: after a successful fit, `embedding_row_ = D₁^{-α₁} U Σ^{1−α}` and
-    `embedding_col_ = D₂^{-α₂} V Σ^{α}` formed from the returned (re-ordered) triplets, row-normalised when
-    `normalized`; `singular_values_` is in decreasing order and has as many entries as the solver returned. -/
-theorem gsvd_embedding {out : GsvdOut α} (h : gsvdFit F nRow nCol a nnz p solver = .ok out) :
+/-- (unfolding of the model, used below; the statement in terms of the specification is `gsvd_embedding`)
+    `embedding_row_` / `embedding_col_` as `normalize2` of the raw products with the model's own `diag_row`, `diag_col`;
+    `singular_values_` is in decreasing order and has as many entries as the solver returned. -/
+theorem gsvd_embedding_raw {out : GsvdOut α} (h : gsvdFit F nRow nCol a nnz p solver = .ok out) :
     let sol := gsSol F nRow nCol a p solver
     let dr := (gsvdOperator F nRow nCol a p).2.2.1
     let dc := (gsvdOperator F nRow nCol a p).2.2.2.1
@@ -542,6 +601,72 @@ theorem gsvd_embedding {out : GsvdOut α} (h : gsvdFit F nRow nCol a nnz p solve
   rw [hout]
   exact ⟨(gsvdPost_embedding F nRow nCol p _ _ _ _ _ _ _).1, (gsvdPost_embedding F nRow nCol p _ _ _ _ _ _ _).2,
     gsvdPost_order F nRow nCol p _ _ _ _ _ _ _, gsvdPost_sv_length F nRow nCol p _ _ _ _ _ _ _⟩
+
+/-- **`gsvd_embedding`**: after a successful fit, entry by entry and with the *specification's* weights
+    (`D₁ = diag(A_reg 1)`, `D₂ = diag(A_regᵀ 1)`, `A_reg = A + α 11ᵀ/n_col`):
+    `embedding_row_ = D₁^{-α₁} U Σ^{1−α}` and `embedding_col_ = D₂^{-α₂} V Σ^{α}` with `U, Σ, V` the public
+    `singular_vectors_left_`, `singular_values_`, `singular_vectors_right_`, every row divided by its norm when
+    `normalized` (`Spec.normalizedEntry`); `singular_values_` is in decreasing order. -/
+theorem gsvd_embedding {out : GsvdOut α} (h : gsvdFit F nRow nCol a nnz p solver = .ok out) :
+    let r := p.regularization.getD 0
+    let k := out.singularValues.length
+    let rowRaw := mkMat nRow k fun i c => pinv (F.pow (Spec.gsvdWeightRow nCol a r i) p.factorRow) * mget out.left i c
+        * F.pow (vget out.singularValues c) (1 - p.factorSingular)
+    let colRaw := mkMat nCol k fun j c => pinv (F.pow (Spec.gsvdWeightCol nRow nCol a r j) p.factorCol) * mget out.right j c
+        * F.pow (vget out.singularValues c) p.factorSingular
+    (∀ i c, i < nRow → c < k →
+      mget out.embeddingRow i c = if p.normalized then Spec.normalizedEntry F k rowRaw i c else mget rowRaw i c) ∧
+    (∀ j c, j < nCol → c < k →
+      mget out.embeddingCol j c = if p.normalized then Spec.normalizedEntry F k colRaw j c else mget colRaw j c) ∧
+    out.singularValues.Pairwise (· ≥ ·) := by
+  intro r k rowRaw colRaw
+  obtain ⟨_, hcol2, hout⟩ := gsvdFit_ok F nRow nCol a nnz p solver h
+  obtain ⟨hrow, hcolm, hord, hlen⟩ := gsvd_embedding_raw F nRow nCol a nnz p solver h
+  have hc0 : 0 < nCol := by omega
+  have hk : k = (gsSol F nRow nCol a p solver).1.length := hlen
+  -- the raw matrices of the model are the raw matrices of the specification
+  have hrowEq : mkMat nRow (gsSol F nRow nCol a p solver).1.length
+        (gsvdRowRaw F nRow nCol p (gsK nRow nCol p) (gsvdOperator F nRow nCol a p).2.2.1
+          (gsvdOperator F nRow nCol a p).2.2.2.1 (gsvdOperator F nRow nCol a p).2.1 (gsSol F nRow nCol a p solver).1
+          (gsSol F nRow nCol a p solver).2.1 (gsSol F nRow nCol a p solver).2.2) = rowRaw := by
+    rw [← hk]
+    refine mkMat_congr fun i hi c _ => ?_
+    unfold gsvdRowRaw
+    rw [gsvd_diagRow F nRow nCol a p hc0 i hi, hout]
+    ring
+  have hcolEq : mkMat nCol (gsSol F nRow nCol a p solver).1.length
+        (gsvdColRaw F nRow nCol p (gsK nRow nCol p) (gsvdOperator F nRow nCol a p).2.2.1
+          (gsvdOperator F nRow nCol a p).2.2.2.1 (gsvdOperator F nRow nCol a p).2.1 (gsSol F nRow nCol a p solver).1
+          (gsSol F nRow nCol a p solver).2.1 (gsSol F nRow nCol a p solver).2.2) = colRaw := by
+    rw [← hk]
+    refine mkMat_congr fun j hj c _ => ?_
+    unfold gsvdColRaw
+    rw [gsvd_diagCol F nRow nCol a p hc0 j hj, hout]
+    ring
+  rw [hrowEq, ← hk] at hrow
+  rw [hcolEq, ← hk] at hcolm
+  refine ⟨?_, ?_, hord⟩
+  · intro i c hi hc
+    rw [hrow]
+    cases p.normalized
+    · simp
+    · simp only [if_true]; exact normalize2_eq_normalizedEntry F nRow k rowRaw i c hi hc
+  · intro j c hj hc
+    rw [hcolm]
+    cases p.normalized
+    · simp
+    · simp only [if_true]; exact normalize2_eq_normalizedEntry F nCol k colRaw j c hj hc
+
+/-- **`SVD` is `GSVD` with `α₁ = α₂ = 0`**: if `pow x 0 = 1` (true for `np.power` and `Real.rpow`), the matrix whose
+    triplets `SVD.fit` returns is the regularised matrix `A + α 11ᵀ/n_col` itself. -/
+theorem svd_operator_denote (hp0 : ∀ x, F.pow x 0 = 1) (hfr : p.factorRow = 0) (hfc : p.factorCol = 0)
+    (i j : Nat) :
+    Spec.gsvdEntry F nRow nCol a (p.regularization.getD 0) p.factorRow p.factorCol i j
+      = Spec.aReg nCol a (p.regularization.getD 0) i j := by
+  have h1 : pinv (1 : α) = 1 := by simp [pinv]
+  unfold Spec.gsvdEntry
+  rw [hfr, hfc, hp0, hp0, h1]
+  ring
 
 /-- **`gsvd_predict_row`** (fit level).  After a successful fit whose solver output satisfies the contract,
     `predict` accepts every batch `x` of `nVec` vectors without negative entry (an empty row — an isolated node — included),
@@ -617,7 +742,7 @@ theorem gsvd_unit_norm {out : GsvdOut α} (h : gsvdFit F nRow nCol a nnz p solve
     ((∃ c, c < sol.1.length ∧ mget rowRaw i c ≠ 0) → sqNorm sol.1.length out.embeddingRow i = 1) ∧
     ((∀ c, c < sol.1.length → mget rowRaw i c = 0) → ∀ c, mget out.embeddingRow i c = 0) := by
   intro sol rowRaw hsq
-  have := (gsvd_embedding F nRow nCol a nnz p solver h).1
+  have := (gsvd_embedding_raw F nRow nCol a nnz p solver h).1
   simp only [hnm, if_true] at this
   rw [this]
   exact normalize_unit F nRow sol.1.length rowRaw i hi hsq
@@ -705,6 +830,29 @@ theorem pca_predict_row {out : PcaOut α} (h : pcaFit F nRow nCol a nnz nc nm so
     · rw [hout]
       exact Embedding.pca_predict_row F nRow nCol a _ _ _ nm hsol i hi nVec r hr x hx hsv c (by rw [hout] at hc; exact hc)
   · rw [hout]; rfl
+
+/-- **C09 / PCA, the embedding**: entry by entry `embedding_row_` is the matrix of left singular vectors, every row
+    divided by its norm when `normalized` (same for `embedding_col_` and the right singular vectors). -/
+theorem pca_embedding {out : PcaOut α} (h : pcaFit F nRow nCol a nnz nc nm solver = .ok out) :
+    let k := out.singularValues.length
+    (∀ i c, i < nRow → c < k →
+      mget out.embeddingRow i c = if nm then Spec.normalizedEntry F k out.left i c else mget out.left i c) ∧
+    (∀ j c, j < nCol → c < k →
+      mget out.embeddingCol j c = if nm then Spec.normalizedEntry F k out.right j c else mget out.right j c) := by
+  intro k
+  obtain ⟨_, _, hout⟩ := pcaFit_ok F nRow nCol a nnz nc nm solver h
+  subst hout
+  constructor
+  · intro i c hi hc
+    cases nm
+    · simp [pcaPost]
+    · simp only [pcaPost, if_true]
+      exact normalize2_eq_normalizedEntry F nRow _ _ i c hi hc
+  · intro j c hj hc
+    cases nm
+    · simp [pcaPost]
+    · simp only [pcaPost, if_true]
+      exact normalize2_eq_normalizedEntry F nCol _ _ j c hj hc
 
 /-- **C09 / PCA: triplets and unit norm.**  The public triplets are the solver's, hence (under the contract) singular
     triplets of the centred matrix `A − 1μᵀ` of the specification; with `normalized=True` every non-null row of
@@ -894,6 +1042,15 @@ theorem louvain_reindex_remove (labels : List Nat) :
   rw [hget v hv, hget w hw]
   exact this
 
+/-- **C09 / LouvainEmbedding, columns**: on a rectangular input `embedding_col_[j][c]` is the share of the weight of
+    column `j` carried by the rows whose label is `c`, for a labelling of the rows (the re-indexed secondary labels). -/
+theorem louvainEmbedding_fit_col (nRow nCol : Nat) (a : Mat α) (ln lr lc : List Nat) (which : Isolated)
+    {out : LouvainEmbOut α} (h : louvainEmbFit nRow nCol a ln lr lc which = .ok out) (hne : (nRow == nCol) = false) :
+    ∃ labRow : List Int, ∃ ec, out.embeddingCol = some ec ∧
+      ∀ j c, j < nCol → c < membershipCols labRow →
+        mget ec j c = Spec.louvainEntry nRow (mkMat nCol nRow fun j i => mget a i j) labRow j c :=
+  louvainEmbFit_col nRow nCol a ln lr lc which h hne
+
 example : (louvainEmbFit 3 3 ([[0, 1, 1], [1, 0, 0], [1, 0, 0]] : Mat ℚ) [0, 0, 1] [] [] .remove).toOption.map
     (fun o => (o.labels, o.embedding)) = some ([0, 0, -1], [[1/2], [1], [1]]) := by decide +kernel
 
@@ -913,6 +1070,8 @@ theorem real_pow_split (s a : ℝ) (hs : 0 < s) : Freal.pow s (1 - a) * Freal.po
   · change s ^ (1 - a) * s ^ a = s
     rw [← Real.rpow_add hs, sub_add_cancel, Real.rpow_one]
   · exact ne_of_gt (Real.rpow_pos_of_pos hs a)
+
+theorem real_pow_zero (x : ℝ) : Freal.pow x 0 = 1 := Real.rpow_zero x
 
 /-- **`normalize_unit` over ℝ**, no side condition: every non-null row becomes a unit vector, null rows stay null. -/
 theorem normalize_unit_real (n k : Nat) (m : Mat ℝ) (i : Nat) (hi : i < n) :
